@@ -10,6 +10,7 @@ TOOLS = ['e2fsck -fn', 'e2fsck -fn', 'e2fsck -n', 'e2fsck -p', 'e2fsck -fy', 'e2
          'e2image -r', 'e2image -Q', 'e2image -ra', 'e2image meta', 'e2freefrag', 'e2undo mutated', 'e2image -r mutated-qcow2', 'e2fsck -fn -b', 'e2fsck -fy journal-noise', 'debugfs jr', 'e2fsck -fn -E journal_only?']
 TOOLS = [t for t in TOOLS if not t.endswith('?')]
 # journals laid out by the independent JBD2 writer (descriptor/revoke/commit blocks of every format) whose header fields are then set to boundary values
+TOOLS += ['e2undo structured', 'e2undo structured']      # undo files whose header / key fields are set to boundary values with the checksums recomputed
 TOOLS += ['e2fsck -fy journal-struct', 'debugfs logdump journal-struct', 'debugfs logdump journal-struct', 'debugfs jr journal-struct']
 JFIELD_VALUES = [0, 1, 2, 5, 0xfffffff0, 0x7fffffff, 0xffffffff, 0x80000000]
 E2FSCK_OK = 1 | 2 | 4 | 8 | 16 | 32 | 128
@@ -86,7 +87,7 @@ def body(case, env):
     if tpl is None: return (None, fp, False, None, classes + ['skip:template'])
     t = env['asan']; d = env['dir']; img = hyp.fresh_copy(env, tpl, 'c06.img'); bs = fsgen.config_by_name(case['cfg'])['bs']
     desc = []
-    if name not in ('e2undo mutated', 'e2image -r mutated-qcow2'):
+    if name not in ('e2undo mutated', 'e2undo structured', 'e2image -r mutated-qcow2'):
         try: desc = corrupt.apply(img, [tuple(m) for m in case['muts']])
         except Exception: desc = []
     out = os.path.join(d, 'c06out'); outdir = os.path.join(d, 'c06outdir'); shutil.rmtree(outdir, ignore_errors=True); os.makedirs(outdir)
@@ -147,6 +148,30 @@ def body(case, env):
         if not u: return (None, fp, False, None, classes + ['skip:no-undo-file'])
         mu = os.path.join(d, 'c06.e2undo'); shutil.copyfile(u, mu); shutil.copyfile(u + '.dev', img); byte_noise(mu)
         argv = [t.e2undo] + (['-f'] if sub % 2 else []) + [mu, img]
+    elif name == 'e2undo structured':
+        u = aux_file(env, 'undo', case['cfg'], case['recipe'], tpl)
+        if not u: return (None, fp, False, None, classes + ['skip:no-undo-file'])
+        mu = os.path.join(d, 'c06.e2undo'); shutil.copyfile(u, mu); shutil.copyfile(u + '.dev', img)
+        try:
+            with open(mu, 'r+b') as f:
+                hdr = bytearray(f.read(512)); ubs = struct.unpack_from('<I', hdr, 32)[0]; koff = struct.unpack_from('<Q', hdr, 24)[0]; nkeys = struct.unpack_from('<Q', hdr, 8)[0]
+                if hdr[:8] != b'E2UNDO02' or not (1024 <= ubs <= 1048576): raise ValueError('not an undo file')
+                f.seek(koff * ubs); kb = bytearray(f.read(ubs))
+                vals = [0, 1, 2, ubs - 1, ubs, ubs + 1, 512 * ubs, 512 * ubs + 1, 0x7fffffff, 0x80000000, 0xffffffff, 0xfffffc01, (1 << 32) - ubs + 1, (1 << 32) - ubs, 0xfffffffe, 1 << 20]
+                for pos, ln, val in case['aux'][:3]:
+                    v = vals[val % len(vals)]
+                    if pos % 3 == 0:      # header field
+                        o, w = [(8, 8), (16, 8), (24, 8), (32, 4), (36, 4), (48, 4), (64, 8)][(pos // 3) % 7]
+                        struct.pack_into('<Q' if w == 8 else '<I', hdr, o, v if w == 4 else [v, v << 20, v][pos % 3]); classes.append('undo-field:hdr@%d' % o)
+                    else:                 # a key: fsblk / blk_crc / size
+                        k = (pos // 3) % max(1, min(nkeys, (ubs - 16) // 16)); fo = [(0, 8), (12, 4), (12, 4), (8, 4)][pos % 4]
+                        struct.pack_into('<Q' if fo[1] == 8 else '<I', kb, 16 + 16 * k + fo[0], v); classes.append('undo-field:key.%s' % {0: 'fsblk', 12: 'size', 8: 'blk_crc'}[fo[0]])
+                if case['aux'][0][1] % 4:      # three times in four the checksums are made right again
+                    struct.pack_into('<I', kb, 4, 0); struct.pack_into('<I', kb, 4, e4ref.crc32c(0xffffffff, bytes(kb)))
+                    struct.pack_into('<I', hdr, 508, e4ref.crc32c(0xffffffff, bytes(hdr[:508])))
+                f.seek(koff * ubs); f.write(kb); f.seek(0); f.write(hdr)
+        except Exception as e: return (None, fp, False, None, classes + ['skip:undo-parse:' + type(e).__name__])
+        argv = [t.e2undo] + (['-f'] if sub % 2 else []) + (['-n'] if sub % 5 == 0 else []) + [mu, img]
     elif name == 'e2image -r mutated-qcow2':
         q = aux_file(env, 'qcow2', case['cfg'], case['recipe'], tpl)
         if not q: return (None, fp, False, None, classes + ['skip:no-qcow2'])
@@ -178,7 +203,7 @@ def body(case, env):
             return (dict(base, kind='undocumented-exit-status', tail=p.out[-300:]), fp, True, None, classes)
     opened = not re.search(r"(Bad magic number|while (trying to )?open|Couldn't find valid filesystem superblock|while opening)", p.out[:2000])
     classes.append('rc:%s' % p.rc)
-    return (None, fp, opened and bool(desc or name.endswith(('mutated', 'qcow2'))), dict(tool=name, cfg=case['cfg'], applied=desc[:4], sub=(stdin or '')[:80], rc=p.rc), classes)
+    return (None, fp, opened and bool(desc or name.endswith(('mutated', 'qcow2', 'structured'))), dict(tool=name, cfg=case['cfg'], applied=desc[:4], sub=(stdin or '')[:80], rc=p.rc), classes)
 
 # ---------------------------------------------------------------------------------------------------------------- libFuzzer part
 def fuzz_targets():
